@@ -4,6 +4,10 @@ package checks
 
 import (
 	"github.com/ryogrid/SamehadaDB/lib/storage/access"
+	"math/rand"
+	"runtime"
+	"sync"
+	"sync/atomic"
 
 	"fmt"
 	"sort"
@@ -23,9 +27,11 @@ func init() {
 		Rule: "case = two generated tables + a generated statement list covering every non-DDL statement kind and plan shape: scan-path and index-path SELECT with selection / projection, joins under statistics states that make the optimizer choose HashJoin, IndexJoin and NestedLoopJoin, " +
 			"page-allocating multi-row INSERT, in-place / relocating / key-changing UPDATE, DELETE, statements that fail in planning (unknown table / column) and statements aborted by a row lock held by a parked second transaction. " +
 			"Monitor: the vector (page id -> pin count) over BufferPoolManager.GetPages() is read before and after EVERY statement (single goroutine, background threads off) and must be equal; " +
-			"second oracle: 1 500 (quick) / 15 000 (thorough) repetitions of each statement kind in a pool of 32 frames must not exhaust it. " +
+			"every fifth step is a multi-statement transaction (own writes followed by scans / joins; pins compared around every statement and around commit / abort); " +
+			"second oracle: 1 500 (quick) / 15 000 (thorough) repetitions of each statement kind in a pool of 32 frames must not exhaust it; " +
+			"third class (every sixth case): 12-32 client goroutines issue INSERT / UPDATE / DELETE / range SELECT with interleaved ascending keys (long keys in half of the cases) in rounds, and the pin vector is compared whenever all clients of a round have returned. " +
 			"Non-trivial statement = plan touches >= 3 distinct pages (join, multi-page scan, page-allocating insert); distinct by (case, statement text)",
-		Assumptions: []string{"frames are read only at quiescent points of a single goroutine", "permanent pins (index header / start nodes) are on both sides of the comparison"},
+		Assumptions: []string{"frames are read only at quiescent points (single goroutine, or all client goroutines of a round have returned)", "permanent pins (index header / start nodes) are on both sides of the comparison"},
 		NumCases: func(env *core.Env) int {
 			if env.Thorough() {
 				return 600
@@ -74,9 +80,103 @@ func pinDiff(a, b map[int32]int32) (newlyPinned string, growth int64) {
 	return strings.Join(out, ", "), growth
 }
 
+// c14Concurrent: statements of several clients at once. 12-32 goroutines insert rows with interleaved ascending keys
+// (long strings in half of the cases: node splits in every index on every few inserts), update and delete their own rows
+// and read ranges, in rounds; whenever all clients of a round have returned the pin vector must be what it was before
+// the round (pages with count 0 before and > 0 after are leaks; nothing is running, so no statement can still hold a pin).
+func c14Concurrent(env *core.Env, idx int, r *rand.Rand, res *core.CaseResult) *core.CaseResult {
+	memKB := []int{1024, 4096}[r.Intn(2)]
+	db := sqlx.Open(fmt.Sprintf("%s/c14c_%d", env.TmpDir, idx), memKB, sqlx.Options{})
+	long := r.Intn(2) == 0
+	cols := []rm.Col{{Name: "id", K: rm.KInt}, {Name: "k", K: rm.KInt}, {Name: "v", K: rm.KStr}}
+	if err := db.CreateTableSQL("c", cols); err != nil {
+		res.Inconclusive = "create table failed"
+		return res
+	}
+	clients := 12 + r.Intn(21)
+	rounds := 6
+	per := 12
+	if env.Thorough() {
+		rounds, per = 12, 25
+	}
+	procs := []int{4, 16}[r.Intn(2)]
+	old := runtime.GOMAXPROCS(procs)
+	defer runtime.GOMAXPROCS(old)
+	desc := map[string]any{"seed": env.Seed, "idx": idx, "memKB": memKB, "clients": clients, "rounds": rounds, "statements_per_client_and_round": per, "long_keys": long, "gomaxprocs": procs}
+	tags := []string{"concurrent-statements"}
+	if long {
+		tags = append(tags, "long-keys")
+	}
+	res.Add("concurrent_cases", 1)
+	var fatal atomic.Value
+	var aborted, done atomic.Int64
+	for round := 0; round < rounds; round++ {
+		before := pinVector(db)
+		var wg sync.WaitGroup
+		gate := make(chan struct{})
+		for c := 0; c < clients; c++ {
+			wg.Add(1)
+			lr := rand.New(rand.NewSource(r.Int63()))
+			go func(c int) {
+				defer wg.Done()
+				defer func() {
+					if x := recover(); x != nil {
+						fatal.CompareAndSwap(nil, fmt.Sprintf("client %d: %v | %s", c, x, engineFrames(stackBytes())))
+					}
+				}()
+				<-gate
+				for n := 0; n < per; n++ {
+					id := (round*per+n)*clients + c // interleaved ascending keys: neighbours in every index belong to different clients
+					pad := 4 + lr.Intn(8)
+					if long {
+						pad = 120 + lr.Intn(200)
+					}
+					var sql string
+					switch x := lr.Intn(10); {
+					case x < 7:
+						sql = fmt.Sprintf("INSERT INTO c(id, k, v) VALUES (%d, %d, 'v%08d%s');", id, id%7, id, strings.Repeat("p", pad))
+					case x < 8 && n > 0:
+						sql = fmt.Sprintf("UPDATE c SET k = %d WHERE id = %d;", lr.Intn(7), id-clients)
+					case x < 9 && n > 0:
+						sql = fmt.Sprintf("DELETE FROM c WHERE id = %d;", id-clients)
+					default:
+						sql = fmt.Sprintf("SELECT id FROM c WHERE id >= %d AND id <= %d;", id-3*clients, id)
+					}
+					rr := db.Auto(sql)
+					done.Add(1)
+					if rr.Aborted || rr.Err != nil {
+						aborted.Add(1) // no-wait locking: a conflict aborts the statement; its pins must be gone all the same
+					}
+				}
+			}(c)
+		}
+		close(gate)
+		wg.Wait()
+		if f := fatal.Load(); f != nil {
+			res.Violate("panic", tags, desc, "concurrent statements panicked in round %d: %s", round, clipStr(f.(string), 400))
+			return res
+		}
+		res.Add("concurrent_rounds", 1)
+		if d, _ := pinDiff(before, pinVector(db)); d != "" {
+			res.Violate("pin-leak", tags, desc, "after round %d (%d clients x %d statements, all returned) the pin vector differs from the one before the round: %s", round, clients, per, d)
+			return res
+		}
+	}
+	res.Add("concurrent_statements", done.Load())
+	res.Add("concurrent_statements_aborted", aborted.Load())
+	res.Add("statements", done.Load())
+	res.Nontrivial = true
+	res.Key = fmt.Sprintf("c14c-%d", idx)
+	guarded(func() { db.S.ShutdownForTescase() })
+	return res
+}
+
 func c14Run(env *core.Env, idx int) *core.CaseResult {
 	r := env.Rand(idx)
 	res := core.NewResult()
+	if idx%6 == 5 {
+		return c14Concurrent(env, idx, r, res)
+	}
 	loop := idx%4 == 3 // every 4th case is a repetition case in a tight pool
 	memKB := []int{512, 1024, 4096}[r.Intn(3)]
 	if loop {
